@@ -17,8 +17,9 @@ KAPPA_MAX = 1e12
 RULE = ("pairwise-distinct point clouds (3..30 points; scatter / jittered grid / line / two tight clusters; 1-D and 2-D arrays; "
         "coordinate scale 1e-2..1e6; offsets up to 1e3 x extent), data of varied magnitude. Estimators: undamped Spline (mindist "
         "None/0/small), undamped VectorSpline2D (Poisson ratio in [-1,1] incl. end points), KNeighbors(k=1), Linear and Cubic "
-        "(rescale on/off; non-collinear clouds only), Chain(Trend, Spline), Chain(Trend, KNeighbors), Chain(Trend, Linear), "
-        "Vector(Spline, Spline), Vector(KNeighbors, Cubic), Chain(Vector(Trend, Trend), VectorSpline2D), all fitted and predicted "
+        "(rescale on/off; non-collinear clouds only), 17 compositions with an exact interpolator in EVERY position of a chain "
+        "(Chain(Trend, Spline), Chain(Spline, Linear), Chain(Spline, KNeighbors), Chain(Trend, Spline, Cubic), Chain(Spline, Spline), "
+        "Chain(Linear, Spline), Chain(VectorSpline2D, Vector(Linear, KNeighbors)), a Vector of such chains, ...), all fitted and predicted "
         "at the same points; coordinates and data are handed over 1-D or as 2-D arrays that are NOT xy-meshgrids (scattered points "
         "reshaped to (r, c), a column (n, 1), a row (1, n), meshgrid(indexing='ij'), a rotated grid) and every 2-D case is also "
         "compared with the same points passed 1-D (stream shape-2d-vs-1d/*: equal values, output in the shape of the input); "
@@ -93,8 +94,18 @@ def cloud(rnd, n, collinear_ok=True):
     offset = rnd.choice([0.0, 0.0, 1.0, 30.0, 1e3]) * rnd.uniform(-1, 1)
     # collinear_ok=False is the Linear/Cubic (Delaunay) setting: no collinear clouds (QhullError) and no tight
     # clusters (thin triangles: scipy's find_simplex misses a hull vertex -> NaN at a data point; reported finding)
-    layouts = ["scatter", "scatter", "grid", "ijgrid", "rotgrid"] + (["clusters", "line"] if collinear_ok else [])
+    layouts = ["scatter", "scatter", "grid", "ijgrid", "rotgrid", "unitlattice"] + (["clusters", "line"] if collinear_ok else [])
     layout = Layout(rnd.choice(layouts))
+    if layout == "unitlattice":
+        # stations with pairs EXACTLY 1.0 apart (the biharmonic Green's function switches formula at distance 1):
+        # integer lattice (unit spacing, integer offset) plus a few 3-4-5 points; coordinate scale exactly 1
+        k = int(np.ceil(n ** 0.5)) + 1
+        pts = [(float(a), float(b)) for a in range(k) for b in range(k)] + [(0.6, 0.8), (0.28, 0.96), (1.6, 0.8)]
+        rnd.shuffle(pts)
+        off = float(rnd.choice([0, 0, 7, -1000]))
+        e = np.array([q[0] for q in pts[:n]]) + off
+        nn = np.array([q[1] for q in pts[:n]]) - off
+        return e, nn, 1.0, layout
     fac = [(r, n // r) for r in range(2, n) if n % r == 0]
     if layout in ("ijgrid", "rotgrid") and not fac:
         layout = Layout("scatter")
@@ -293,6 +304,16 @@ def spline_case(rnd, i, vector):
         kap = kappa_scaled(spline_kernel(np.ravel(coords[0]), np.ravel(coords[1]), conf_fc[0], conf_fc[1], mind))
     d = flat(data)
     p = np.array(est.force_, dtype=float)
+    if not vector:
+        # the implementation's Jacobian against the independent kernel: entries within 2^-40 of the largest
+        ref = spline_kernel(np.ravel(coords[0]), np.ravel(coords[1]), np.ravel(fc[0]), np.ravel(fc[1]), mind)
+        if ref.shape == A.shape:
+            diff = (A - ref).ravel()
+            _EXTRA.append(Case({"estimator": expr, "coordinates": tolist(coords), "layout": layout},
+                               {"max_abs_difference": float(np.max(np.abs(diff))), "max_abs_entry": float(np.max(np.abs(ref)))},
+                               "c01_exact %s %s %s %s %s" % (cD(1.0), cD(4096.0), cD(float(np.max(np.abs(ref)))),
+                                                             clist(["(0,0)%Z"] * diff.size), dl(diff)),
+                               mk_repro(expr, coords, data, prefit), "jacobian-vs-independent/spline"))
     stream = ("vector-spline" if vector else "spline") + ("" if mode == "none" else "-forces-" + mode) + ("-prefit" if prefit is not None else "")
     inp = {"estimator": expr, "coordinates": tolist(coords), "data": tolist(data), "layout": layout, "force_mode": mode,
            "fitted_before_to": None if prefit is None else {"coordinates": tolist(prefit[0]), "data": tolist(prefit[1])}}
@@ -322,12 +343,17 @@ def knn_case(rnd, i):
 
 
 def nan_report(coords, pf):
-    """which data points were predicted non-finite, and whether they are vertices of the convex hull of the cloud"""
+    """which data points were predicted non-finite, and whether they all lie ON THE BOUNDARY of the convex hull of the
+    cloud (a hull vertex, or a point on a hull edge as the border nodes of a rotated grid): the signature of finding F17"""
     from scipy.spatial import ConvexHull
     bad = np.flatnonzero(~np.isfinite(pf))
+    pts = np.column_stack([np.ravel(coords[0]), np.ravel(coords[1])])
     try:
-        hull = set(int(v) for v in ConvexHull(np.column_stack([np.ravel(coords[0]), np.ravel(coords[1])])).vertices)
-        on_hull = bool(all(int(b) in hull for b in bad))
+        hull = ConvexHull(pts)
+        ext = float(np.max(np.ptp(pts, axis=0))) or 1.0
+        # signed distance to the nearest facet: 0 on the boundary, negative inside
+        dist = np.max(hull.equations[:, :2] @ pts[bad].T + hull.equations[:, 2:3], axis=0)
+        on_hull = bool(bad.size > 0 and np.all(dist >= -1e-9 * ext))
     except Exception:
         on_hull = False
     return {"non_finite_predictions": int(bad.size), "at_data_points": bad.tolist(), "all_on_convex_hull": on_hull}
@@ -357,22 +383,45 @@ def scipy_case(rnd, i):
 
 
 COMPOSITES = [
-    # (expression, vector data?, exact last step is least squares?)
-    ("vd.Chain([('trend', vd.Trend(1)), ('spline', vd.Spline())])", False, "spline"),
-    ("vd.Chain([('trend', vd.Trend(2)), ('nn', vd.KNeighbors(1))])", False, None),
-    ("vd.Chain([('trend', vd.Trend(1)), ('lin', vd.Linear())])", False, "scipy"),
-    ("vd.Chain([('nn', vd.KNeighbors(1)), ('spline', vd.Spline())])", False, "spline"),
-    ("vd.Vector([vd.Spline(), vd.Spline(mindist=0)])", True, "spline"),
-    ("vd.Vector([vd.KNeighbors(1), vd.Cubic()])", True, "scipy"),
-    ("vd.Chain([('trend', vd.Vector([vd.Trend(1), vd.Trend(2)])), ('spline', vd.VectorSpline2D(poisson=0.3, mindist=MIND))])", True, "vspline"),
-    ("vd.Chain([('trend', vd.Vector([vd.Trend(1), vd.Trend(1)])), ('spline', vd.Vector([vd.Spline(), vd.Spline()]))])", True, "spline"),
+    # (label, expression, vector data?): exact interpolators in EVERY position of a chain; the last step is always exact
+    ("Chain-trend-spline", "vd.Chain([('trend', vd.Trend(1)), ('spline', vd.Spline())])", False),
+    ("Chain-trend-knn", "vd.Chain([('trend', vd.Trend(2)), ('nn', vd.KNeighbors(1))])", False),
+    ("Chain-trend-linear", "vd.Chain([('trend', vd.Trend(1)), ('lin', vd.Linear())])", False),
+    ("Chain-knn-spline", "vd.Chain([('nn', vd.KNeighbors(1)), ('spline', vd.Spline())])", False),
+    ("Vector-spline-spline", "vd.Vector([vd.Spline(), vd.Spline(mindist=0)])", True),
+    ("Vector-knn-cubic", "vd.Vector([vd.KNeighbors(1), vd.Cubic()])", True),
+    ("Chain-vtrend-vspline", "vd.Chain([('trend', vd.Vector([vd.Trend(1), vd.Trend(2)])), ('spline', vd.VectorSpline2D(poisson=0.3, mindist=MIND))])", True),
+    ("Chain-vtrend-vector-splines", "vd.Chain([('trend', vd.Vector([vd.Trend(1), vd.Trend(1)])), ('spline', vd.Vector([vd.Spline(), vd.Spline()]))])", True),
+    ("Chain-spline-linear", "vd.Chain([('spline', vd.Spline()), ('lin', vd.Linear())])", False),
+    ("Chain-spline-knn", "vd.Chain([('spline', vd.Spline()), ('nn', vd.KNeighbors(1))])", False),
+    ("Chain-trend-spline-cubic", "vd.Chain([('trend', vd.Trend(1)), ('spline', vd.Spline()), ('cub', vd.Cubic())])", False),
+    ("Chain-spline-spline", "vd.Chain([('s1', vd.Spline()), ('s2', vd.Spline(mindist=0))])", False),
+    ("Chain-linear-spline", "vd.Chain([('lin', vd.Linear()), ('spline', vd.Spline())])", False),
+    ("Chain-cubic-knn", "vd.Chain([('cub', vd.Cubic()), ('nn', vd.KNeighbors(1))])", False),
+    ("Chain-knn-linear-spline", "vd.Chain([('nn', vd.KNeighbors(1)), ('lin', vd.Linear()), ('spline', vd.Spline())])", False),
+    ("Chain-vspline-vector-linear-knn", "vd.Chain([('vs', vd.VectorSpline2D(poisson=0.3, mindist=MIND)), ('v', vd.Vector([vd.Linear(), vd.KNeighbors(1)]))])", True),
+    ("Vector-of-chains-spline-first", "vd.Vector([vd.Chain([('spline', vd.Spline()), ('lin', vd.Linear())]), vd.Chain([('spline', vd.Spline()), ('nn', vd.KNeighbors(1))])])", True),
 ]
 
 
+def triangulation_nan(coords):
+    """does scipy's Delaunay-based interpolation (default rescale=False) miss one of these data points?  (known finding
+    F17: depends on the cloud only, not on the data)"""
+    import verde as vd
+    c1 = tuple(np.ravel(c) for c in coords)
+    with warnings.catch_warnings():
+        warnings.simplefilter("ignore")
+        pf = np.ravel(vd.Linear().fit(c1, np.arange(c1[0].size, dtype=float)).predict(c1))
+    return None if np.all(np.isfinite(pf)) else pf
+
+
 def composite_case(rnd, i):
-    expr, vec, last = COMPOSITES[i % len(COMPOSITES)]
-    n = rnd.randint(7, 20) if last != "vspline" else rnd.randint(7, 12)
-    e, nn, scale, layout = cloud(rnd, n, collinear_ok=(last != "scipy"))
+    label, expr, vec = COMPOSITES[i % len(COMPOSITES)]
+    has_vspline = "VectorSpline2D" in expr
+    has_spline = "vd.Spline(" in expr
+    needs_tri = "Linear(" in expr or "Cubic(" in expr
+    n = rnd.randint(7, 20) if not has_vspline else rnd.randint(7, 12)
+    e, nn, scale, layout = cloud(rnd, n, collinear_ok=not needs_tri)
     expr = expr.replace("MIND", repr(scale * 0.05))
     if vec:
         arrs = layout2d(rnd, [e, nn, rdata(rnd, n), rdata(rnd, n)], layout)
@@ -381,38 +430,43 @@ def composite_case(rnd, i):
         arrs = layout2d(rnd, [e, nn, rdata(rnd, n)], layout)
         coords, data = (arrs[0], arrs[1]), arrs[2]
     # every second round of the composite list: the same composite instance is first fitted to another data set
-    prefit = other_set(rnd, n, vec, collinear_ok=(last != "scipy")) if (i // len(COMPOSITES)) % 2 else None
-    if prefit is not None and last == "vspline":   # documented memory of VectorSpline2D: give the forces explicitly
+    prefit = other_set(rnd, n, vec, collinear_ok=not needs_tri) if (i // len(COMPOSITES)) % 2 else None
+    if prefit is not None and has_vspline:   # documented memory of VectorSpline2D: give the forces explicitly
         expr = expr.replace("mindist=%r)" % (scale * 0.05), "mindist=%r, force_coords=%s)" % (scale * 0.05, fc_literal(coords)))
-    stream = "composite/" + expr.split("(")[0].replace("vd.", "") + "-" + (last or "knn") + ("-prefit" if prefit is not None else "")
+    stream = "composite/" + label + ("-prefit" if prefit is not None else "")
     inp = {"estimator": expr, "coordinates": tolist(coords), "data": tolist(data), "layout": layout,
            "fitted_before_to": None if prefit is None else {"coordinates": tolist(prefit[0]), "data": tolist(prefit[1])}}
     repro = mk_repro(expr, coords, data, prefit)
+    if needs_tri:
+        pf = triangulation_nan(coords)
+        if pf is not None:      # this cloud exhibits the known scipy finding: report it as such, not through the composite
+            return Case({"estimator": "vd.Linear(rescale=False)", "coordinates": tolist(coords), "layout": layout},
+                        nan_report(coords, pf), "Vviol", repro, "linear/nan-at-data-point")
     try:
         est, pred = run(expr, coords, data, prefit)
     except Exception as exc:
-        if last == "scipy":
+        if needs_tri:
             return Case(inp, {"raised": type(exc).__name__}, "Vskip", repro, stream + "/skip-qhull-error", nontrivial=False)
         raise
     d, pf = flat(data), flat(pred)
     out = {"max_abs_misfit": float(np.max(np.abs(pf - d)))}
     if not np.all(np.isfinite(pf)):
         return Case(inp, out, "Vviol", repro, stream + "/nan-at-data-point")
-    if last in ("spline", "vspline"):
-        # conditioning of the exact last step: the spline system at these points
+    if has_spline or has_vspline:
+        # conditioning of the least-squares steps: the spline system(s) at these points (independent kernel for the scalar one)
         import verde as vd
-        if last == "spline":
-            A = vd.Spline().jacobian(coords, coords)
-        else:
-            A = vd.VectorSpline2D(poisson=0.3, mindist=scale * 0.05).jacobian(coords, coords)
-        kap = kappa_scaled(np.array(A, dtype=float))
+        c1 = tuple(np.ravel(c) for c in coords)
+        kap = 1.0
+        if has_spline:
+            kap = max(kap, kappa_scaled(spline_kernel(c1[0], c1[1], c1[0], c1[1], None)))
+        if has_vspline:
+            kap = max(kap, kappa_scaled(np.array(vd.VectorSpline2D(poisson=0.3, mindist=scale * 0.05).jacobian(c1, c1), dtype=float)))
         out["kappa"] = kap
         if not kap <= KAPPA_MAX:
             return skip_case(inp, out, repro, stream)
         term = "c01_exact %s %s (0,0)%%Z %s %s" % (cD(CFACTOR), cD(kap), dl(d), dl(pf))
     else:
-        # last step passes data through: 2^-40 of max|data| (the residual it interpolates is not larger than
-        # max|data| + max|trend prediction|; trend of the data is bounded by a small multiple of max|data| here)
+        # every step passes data through or is a trend: 2^-40 of max|data|
         term = "c01_passthrough %s %s" % (dl(d), dl(pf))
     return Case(inp, out, term, repro, stream, nontrivial=True)
 
@@ -518,7 +572,7 @@ def generate(tier, seed):
         add(knn_case(rnd, i))
     for i in range(16 if q else 160):
         add(scipy_case(rnd, i))
-    for i in range(16 if q else 160):
+    for i in range(34 if q else 204):
         add(composite_case(rnd, i))
     for i in range(30 if q else 210):
         add(trend_poly_case(rnd, i))
@@ -564,7 +618,7 @@ def thin_cases():
 
 
 def finding_key(case):
-    # only the narrow signature of the reported scipy behaviour: exactly ONE data point, a vertex of the convex hull,
+    # only the narrow signature of the reported scipy behaviour: exactly ONE data point, on the boundary of the convex hull (a vertex or on an edge),
     # predicted NaN by a plain Linear/Cubic (it also happens, rarely, with rescale=True and ordinary scatters: see the
     # 16-point witness in the report); anything broader (several NaNs, interior points, composites) stays a violation
     if case.kind in ("linear/nan-at-data-point", "cubic/nan-at-data-point", THIN_STREAM + "/linear/nan-at-data-point",
